@@ -205,6 +205,17 @@ def _cond_tests(cond, out, ops):
         out.append(("!=0", summ(c), id(c)))
 
 
+def _has_strlen_of_path_field(n):
+    """does the condition compare strlen(m->dirname) / strlen(m->basename) with something?"""
+    if n.get("kind") == "CallExpr":
+        c = _strip(n["inner"][0])
+        if c.get("referencedDecl", {}).get("name") == "strlen" and len(n["inner"]) > 1:
+            a = _strip(n["inner"][1])
+            if a.get("kind") == "MemberExpr" and a.get("name") in ("dirname", "basename"):
+                return True
+    return any(_has_strlen_of_path_field(c) for c in (n.get("inner") or []) if isinstance(c, dict))
+
+
 def _const_params(fty):
     """'int (struct module_data *, char *, int, const char *)' -> [False, False, False, True]:
     which parameters are pointers to const (the callee cannot write through them)"""
@@ -231,7 +242,7 @@ class _Fn:
         self.line = node["_loc"][1]
         self.static = node.get("storageClass") == "static"
         self.params, self.locals = [], {}
-        self.calls, self.assigns, self.returns, self.nulltests = [], [], [], []
+        self.calls, self.assigns, self.returns, self.nulltests, self.lenchecks = [], [], [], [], []
         self._guards = {}          # id(call node) -> (test kind, exits)
         body = None
         for c in node.get("inner", []):
@@ -252,6 +263,8 @@ class _Fn:
             _cond_tests(cond, tests, ops)
             ex = _exits(then)
             tb = (then.get("_b", (None, None))[1], then.get("_e", (None, None))[1]) if then else (None, None)
+            if _has_strlen_of_path_field(cond) and "||" not in ops:
+                self.lenchecks.append(tb)
             for (tk, subj, nid) in tests:
                 self._guards[nid] = (tk, ex, sorted(ops))
                 if subj[0] in ("member", "param"):
@@ -280,7 +293,7 @@ class _Fn:
     def dump(self):
         return {"name": self.name, "file": self.file, "line": self.line, "static": self.static,
                 "params": self.params, "locals": self.locals, "calls": self.calls, "assigns": self.assigns,
-                "returns": self.returns, "nulltests": self.nulltests}
+                "returns": self.returns, "nulltests": self.nulltests, "lenchecks": self.lenchecks}
 
 
 def analyse_unit(args):
@@ -520,7 +533,9 @@ class Analysis:
             if not ok:
                 return {"kind": "other", "why": "local %s: unrecognised snprintf/strcpy shape" % v}
             guard = all(self.null_guarded(f, m, ln) for m in ("dirname", "basename") for ln in lines)
-            return {"kind": "dirBase", "suffixes": sfx, "nullGuard": guard}
+            bufsize = f["locals"][v]["size"] or 0
+            fits = all(any(b is not None and b <= ln <= e for (b, e) in f["lenchecks"]) for ln in lines)
+            return {"kind": "dirBase", "suffixes": sfx, "nullGuard": guard, "buf": bufsize, "lenGuard": fits}
 
         # mkstemp template: get_temp_dir(tmp, ..) + strncat(tmp, "xmp_XXXXXX", ..)
         if "strncat" in callees and all(e[1]["callee"] == "strncat" or e[2] == 0 for e in calls):
@@ -650,7 +665,7 @@ def lean_prov(p):
     if k == "found":
         return ".found %s %s %d %d" % (b(p["copyChecked"]), b(p["findChecked"]), p["n"], p["buf"])
     if k == "dirBase":
-        return ".dirBase [%s] %s" % (", ".join(lean_str(s) for s in p["suffixes"]), b(p["nullGuard"]))
+        return ".dirBase [%s] %s %d %s" % (", ".join(lean_str(s) for s in p["suffixes"]), b(p["nullGuard"]), p["buf"], b(p["lenGuard"]))
     if k == "helperArgv":
         items = ", ".join("none" if s is None else "some " + lean_str(s) for s in p["items"])
         return ".helperArgv [%s] %s" % (items, b(p["clean"]))
@@ -674,9 +689,10 @@ inductive Prov where
   | found (copyChecked findChecked : Bool) (n buf : Nat)
                                                -- output of libxmp_find_instrument_file(…, name) where `name` (char[buf]) is
                                                -- written only by libxmp_copy_name_for_fopen(name, …, n); flags: both results tested
-  | dirBase (suffixes : List String) (nullGuard : Bool)
-                                               -- snprintf("%s%s<suffix>", m->dirname, m->basename); "~x": tail after the last
-                                               -- occurrence of a character replaced by literal x; flag: both tested for NULL first
+  | dirBase (suffixes : List String) (nullGuard : Bool) (buf : Nat) (lenGuard : Bool)
+                                               -- snprintf("%s%s<suffix>", m->dirname, m->basename) into char[buf]; "~x": tail after
+                                               -- the last occurrence of a character replaced by literal x; flags: both tested for
+                                               -- NULL first / strlen of them tested first (no silent truncation)
   | modDir                                     -- m->dirname
   | insPath                                    -- m->instrument_path or getenv("XMP_INSTRUMENT_PATH")
   | tempName                                   -- name made by mkstemp from get_temp_dir() ++ "xmp_XXXXXX"
@@ -741,6 +757,10 @@ def generate(bdir=None, repo=None):
     mh = re.search(r"headersize\s*<\s*(\d+)\s*\)", src)
     out.append("/-- `if (headersize < N) return 0;` in libxmp_decrunch: files shorter than N bytes are never unpacked (0 = not found) -/")
     out.append("def decrunchMinHeader : Nat := %d\n" % (int(mh.group(1)) if mh else 0))
+    flt = [p for k, p in sites.items() if k[1] == "flt_load" and p["kind"] == "dirBase"]
+    out.append("/-- does flt_load test the length of dirname/basename before it formats the companion name into its buffer? -/")
+    out.append("def fltLengthChecked : Bool := %s" % ("true" if flt and all(p["lenGuard"] for p in flt) else "false"))
+    out.append("def fltBufSize : Nat := %d\n" % (flt[0]["buf"] if flt else 1024))
     out.append("/-- number of translation units and function bodies examined -/")
     out.append("def unitsExamined : Nat := %d" % len(units))
     out.append("def functionsExamined : Nat := %d\n" % len(an.fns))
